@@ -245,8 +245,57 @@ fn part_b(rep: &Report) -> (u64, u64, u64, usize) {
     (states, transitions, execs, outcomes.len())
 }
 
+/// (c) the whole cache: a sender makes `n_slots` slots live (spread over all 8 segments), `per_msg` new entries per
+/// message, then refers to every slot again as an old entry, then overwrites every 7th and refers once more.
+fn part_c(rep: &Report) {
+    for (n_slots, per_msg) in [(2048usize, 8usize), (320, 1), (300, 5), (257, 1), (2048, 255)] {
+        rep.add("evaluations", 1);
+        let slot = |k: usize| ((k % 8) as u8, (k / 8) as u8);
+        let name = |k: usize, generation: u8| format!("atom_{}_{}", generation, k);
+        let mut cache = erltf::AtomCache::new();
+        let mut current: Vec<String> = (0..n_slots).map(|k| name(k, 0)).collect();
+        let mut problem: Option<String> = None;
+        let mut send = |cache: &mut erltf::AtomCache, refs: Vec<(usize, Option<String>)>, current: &Vec<String>| -> Result<(), String> {
+            let hdr: Vec<HdrRef> = refs.iter().map(|(k, n)| { let (seg, idx) = slot(*k); HdrRef { segment: seg, index: idx, new_text: n.clone() } }).collect();
+            let table: Vec<String> = refs.iter().map(|(k, n)| n.clone().unwrap_or_else(|| current[*k].clone())).collect();
+            let control = RefVal::Tuple(std::iter::once(RefVal::int(2)).chain(table.iter().map(|s| RefVal::atom(s))).collect());
+            let mut bytes = write_dist_header(&hdr);
+            w_term_cached(&mut bytes, &control, &table);
+            match erltf::decode_with_atom_cache(&bytes, cache) {
+                Ok((t, None)) if exact_eq(&denote(&t), &control) => Ok(()),
+                Ok((t, _)) => Err(format!("resolved to {} instead of {}", denote(&t).short(), control.short())),
+                Err(e) => Err(format!("rejected: {}", e)),
+            }
+        };
+        let chunks = |all: Vec<usize>| -> Vec<Vec<usize>> { all.chunks(per_msg).map(|c| c.to_vec()).collect() };
+        // 1. announce
+        for c in chunks((0..n_slots).collect()) {
+            if let Err(e) = send(&mut cache, c.iter().map(|&k| (k, Some(name(k, 0)))).collect(), &current) { problem = Some(format!("announcing slots {:?}..: {}", &c[..1], e)); break; }
+        }
+        // 2. refer to every slot as an old entry
+        if problem.is_none() { for c in chunks((0..n_slots).collect()) {
+            if let Err(e) = send(&mut cache, c.iter().map(|&k| (k, None)).collect(), &current) { problem = Some(format!("old reference to slots {:?}..: {}", &c[..1], e)); break; }
+        } }
+        // 3. overwrite every 7th slot, then refer to all again
+        if problem.is_none() {
+            let over: Vec<usize> = (0..n_slots).step_by(7).collect();
+            for c in chunks(over.clone()) {
+                if let Err(e) = send(&mut cache, c.iter().map(|&k| (k, Some(name(k, 1)))).collect(), &current) { problem = Some(format!("overwriting slots {:?}..: {}", &c[..1], e)); break; }
+            }
+            for k in over { current[k] = name(k, 1); }
+            if problem.is_none() { for c in chunks((0..n_slots).collect()) {
+                if let Err(e) = send(&mut cache, c.iter().map(|&k| (k, None)).collect(), &current) { problem = Some(format!("old reference after overwrite, slots {:?}..: {}", &c[..1], e)); break; }
+            } }
+        }
+        if let Some(p) = problem {
+            rep.violation("a conforming sender that uses many cache slots is not followed by the decoder", json!({"live_slots": n_slots, "references_per_message": per_msg, "what": p}));
+        }
+    }
+}
+
 pub fn run(rep: &Report) -> serde_json::Value {
     part_a(rep);
+    part_c(rep);
     let (states, transitions, execs, outcomes) = part_b(rep);
     json!({
         "states": states,
@@ -255,6 +304,6 @@ pub fn run(rep: &Report) -> serde_json::Value {
         "evaluations": rep.get("evaluations"),
         "distinct_outcomes": outcomes,
         "exhaustive": true,
-        "rule": "(a) control/payload pairs with k distinct atoms for k in {0..4,254,255,256,..}, one atom of byte length 0/1/255/256/300 padded with ASCII or with 2-byte characters (more than 255 bytes in at most 255 characters), atoms as plain atoms, identifier node names, map keys and export modules, encoded by the library and read by an independent header reader and by the library; (b) BFS over all histories of <=3(4) messages of a conforming sender model over 3 atoms and 4 cache slots in segments 0,1,7 (new entry, reference to an existing slot, overwrite; 1-2 references per message, header position != slot), state = sender cache contents, every history replayed through one real AtomCache",
+        "rule": "(a) control/payload pairs with k distinct atoms for k in {0..4,254,255,256,..}, one atom of byte length 0/1/255/256/300 padded with ASCII or with 2-byte characters (more than 255 bytes in at most 255 characters), atoms as plain atoms, identifier node names, map keys and export modules, encoded by the library and read by an independent header reader and by the library; (b) BFS over all histories of <=3(4) messages of a conforming sender model over 3 atoms and 4 cache slots in segments 0,1,7 (new entry, reference to an existing slot, overwrite; 1-2 references per message, header position != slot), state = sender cache contents, every history replayed through one real AtomCache; (c) five long histories in which a sender makes 257..2048 slots live across all 8 segments (1..255 new entries per message), refers to every slot again, overwrites every 7th and refers to all once more",
     })
 }
